@@ -5,7 +5,7 @@ def run(res, a):
     if a.replay:
         if a.replay.endswith(".sched"): return conc.replay(res, "C10", a.replay)
         return apitrace.replay(res, "C10", a.replay)
-    vlib.proof_stage(res, "C10")
+    vlib.proof_stage(res, "C10", files=["C10", "C10conc"])
     big = a.tier == "thorough"
     plan = [("heaps", 60 if big else 16, 400), ("boundary", 4, 200)]
     exe = apitrace.build(res)
